@@ -37,7 +37,7 @@
    [wf] now also has FV-image sections around a nested volume and volumes whose header record and
    first bytes are the reference header (what the parser returns for such a volume); for those the
    polarity parameter is 255. *)
-From Fiano Require Import Base.Bytes Base.BytesLemmas Model.Ffs Model.FfsSpec Proofs.FfsVolLemmas Proofs.FfsCodecProofs.
+From Fiano Require Import Base.Bytes Base.BytesLemmas Model.Ffs Model.FfsSpec Proofs.FfsVolLemmas Proofs.FfsCodecProofs Proofs.FfsCodecLeaf.
 Open Scope Z_scope.
 
 (* ---- stage 1, base case: one compressed section around leaf sections.  Parsing what GenSecHeader
@@ -57,6 +57,24 @@ Theorem C06_compressed_section_roundtrip :
     map strip kids2 = map strip kids /\ map node_buf kids2 = map node_buf kids.
 Proof. intros dec enc u2s s2u nvar. exact (compressed_leaves_roundtrip dec enc u2s s2u nvar). Qed.
 Print Assumptions C06_compressed_section_roundtrip.
+
+(* ---- stage 1, the other base case: a compressed section whose payload the codec REJECTS (a damaged or
+   truncated stream). NewSection keeps it as a section without children, Assemble leaves it alone: it
+   satisfies the two leaf conditions of [wf], so every theorem below covers trees that hold such sections
+   next to decodable ones (the saved bytes of such a section are the old bytes). No codec hypothesis. ---- *)
+Theorem C06_undecodable_section_is_leaf :
+  forall (dec enc : Z -> bytes -> option bytes) (u2s s2u : bytes -> bytes) (nvar : bytes -> option bytes),
+  forall pol h h' g c buf i,
+  s_type h = 2 -> s_gd h = Some g -> zlen (gd_guid g) = 16 -> 0 <= gd_attrs g < 65536 ->
+  Z.land (gd_attrs g) 1 <> 0 -> codec_kind (gd_guid g) <> 0 ->
+  dec (codec_kind (gd_guid g)) c = None ->        (* the payload does not decode *)
+  zlen c < SZ ->
+  gen_sec_header h c = (h', buf) ->               (* the section as written: header, GUID, DataOffset, attributes, payload *)
+  let hp := mkSec (s_size3 h') 2 (s_ext h') (s_hlen h')
+                  (Some (mkGd (gd_guid g) (s_hlen h' + 20) (gd_attrs g) 0)) [] 0 [] None i in
+  leaf_ok dec u2s pol hp buf /\ leaf_stable enc s2u hp buf /\ wf dec enc u2s s2u nvar pol (NSec hp buf []).
+Proof. intros dec enc u2s s2u nvar. exact (undecodable_section_is_leaf dec enc u2s s2u nvar). Qed.
+Print Assumptions C06_undecodable_section_is_leaf.
 
 (* ---- stage 1: a section subtree (compressed sections nested to any depth; FV-image sections with
    nested volumes are covered through stage 3) ---- *)
@@ -344,6 +362,40 @@ Proof.
   split; [exact ex_wf_outer|]. split; [exact I|].
   eexists. eexists. split; [vm_compute; reflexivity|].
   split; [vm_compute; intuition reflexivity|]. vm_compute. repeat constructor.
+Qed.
+
+(* a compressed section that the (toy) codec rejects — wrong tag — is a leaf of wf: parsed without children
+   (gd_kind 0), left alone by Assemble; a file that holds it next to a decodable compressed section meets the
+   hypotheses of the stage-2 theorems, re-parses to the same deep tree after a save and is a fixed point *)
+Definition ex_bad : node :=
+  NSec (mkSec 27 2 27 4 (Some (mkGd LZMA_GUID 24 1 0)) [] 0 [] None 1)
+       ([27; 0; 0; 2] ++ LZMA_GUID ++ [24; 0; 1; 0] ++ [0; 1; 2]) [].
+Lemma ex_leaf_bad : wf xdec xenc idb idb nonv 255 ex_bad.
+Proof.
+  apply wf_leaf.
+  - split; [vm_compute; reflexivity|]. intros H. vm_compute in H. discriminate.
+  - vm_compute. reflexivity.
+Qed.
+Definition ex_file_bad : node := NFile (mkFile ex_guid 0 0 2 64 0 248 0 24 None) [] [ex_outer; ex_bad].
+Lemma ex_wf_file_bad : wf xdec xenc idb idb nonv 255 ex_file_bad.
+Proof.
+  apply wf_file; try reflexivity; try discriminate.
+  - repeat (apply Forall_cons || apply Forall_nil); [exact ex_wf_outer|exact ex_leaf_bad].
+  - repeat (apply Forall_cons || apply Forall_nil); exact I.
+Qed.
+Example ex_undecodable_hypotheses :
+  xdec 1 [0; 1; 2] = None /\
+  wf xdec xenc idb idb nonv 255 ex_file_bad /\ is_file ex_file_bad /\
+  exists t1 st1, asm xenc idb ex_file_bad (255, false) = Ok (t1, st1) /\ small t1 /\ (height t1 <= 4)%nat /\
+    exists t2, parse_file xdec idb nonv 4 255 (node_buf t1 ++ [255; 255]) = Ok (Some t2, 255) /\
+               deep t2 = deep ex_file_bad /\
+               exists t3 st3, asm xenc idb t2 (255, false) = Ok (t3, st3) /\ node_buf t3 = node_buf t1.
+Proof.
+  split; [reflexivity|]. split; [exact ex_wf_file_bad|]. split; [exact I|].
+  eexists. eexists. split; [vm_compute; reflexivity|].
+  split; [vm_compute; intuition reflexivity|]. split; [vm_compute; repeat constructor|].
+  eexists. split; [vm_compute; reflexivity|]. split; [vm_compute; reflexivity|].
+  eexists. eexists. split; vm_compute; reflexivity.
 Qed.
 
 (* idempotence on a concrete header; a growing nested volume with 16-byte blocks *)
